@@ -1,13 +1,16 @@
 """C08 - all angle notations convert to one another without changing the angle (F-model: exact IEEE doubles as QF_LIA)."""
 import os
+import math
 import z3
 from vsym import core, instr, solve, ob, fmodel as fm
 from vsym.core import explore, Fraction as F
+Fraction = F
+from checks.common import swap_global
 
 PID = 'C08'
 GROUP_BUDGET = {'quick': 420, 'thorough': 3000}
 QT = {'quick': 40, 'thorough': 300}
-TOL_DEG = F(1, 10 ** 8) / 3600           # 1e-8 arc-seconds in degrees
+TOL_DEG = F(1, 10 ** 8) / 3600 / 4       # per function: a quarter of 1e-8 arc-seconds (degrees), so chains of <= 3 conversions stay within 1e-8"
 META = {
     'level': 'other',
     'explanation': 'The real geodepy/angles.py is executed through the instrumented importer in the F-model: every Python float is an exact IEEE-754 '
@@ -46,20 +49,33 @@ class fmode:
         instr.TEXT_HOOK[0] = self.old
 
 
-def chunks(tier):
-    """(lo, hi) magnitude chunks, each inside one binade"""
+def all_chunks(elo=-20):
+    """(lo, hi) magnitude chunks covering [2^elo, 720): one per binade below 8 deg, at most 4 deg wide above"""
     out = []
-    elo = -2 if tier == 'quick' else -20
     for E in range(elo, 10):
         lo, hi = F(2) ** E, F(2) ** (E + 1)
-        if E < 5:
+        if E < 3:
             out.append((lo, hi))
             continue
-        step = {5: 16, 6: 16, 7: 16, 8: 16, 9: 16}[E] if tier == 'quick' else 4
         a = lo
         while a < min(hi, 720):
-            out.append((a, min(a + step, hi, F(720))))
-            a += step
+            out.append((a, min(a + 4, hi, F(720))))
+            a += 4
+    return out
+
+
+def chunks(tier, seed=0):
+    """thorough: every chunk of [2^-20, 720). quick: every chunk of [0.25, 8) and every fourth 4-degree chunk above (rotating with
+    VERIF_SEED), always including the first and last chunk of each binade and the chunks around 512 deg"""
+    if tier != 'quick':
+        return all_chunks(-20)
+    out = []
+    cs = all_chunks(-2)
+    for i, (lo, hi) in enumerate(cs):
+        first = fm.log2floor(lo) != fm.log2floor(cs[i - 1][0]) if i else True
+        last = (i + 1 == len(cs)) or fm.log2floor(cs[i + 1][0]) != fm.log2floor(lo)
+        if lo < 8 or first or last or (i + seed) % 4 == 0 or 504 <= lo <= 516:
+            out.append((lo, hi))
     return out
 
 
@@ -138,22 +154,32 @@ def g_hp_inputs(fn):
     def g(tier, seed, chunk_sel=None):
         A = angles()
         out = []
-        for ci, (lo, hi) in enumerate(chunks(tier)):
+        for ci, (lo, hi) in enumerate(chunks(tier, seed)):
             if chunk_sel is not None and ci % chunk_sel[1] != chunk_sel[0]:
                 continue
             tag = '%s on HP values in [%s, %s)' % (fn, float(lo), float(hi))
             for neg in ((False, True) if ci % 7 == 3 else (False,)):
                 def run():
                     f, x = hp_input(lo, hi, tier, True, neg)
-                    return f, x, _call(A, fn, x)
+                    r = _call(A, fn, x)
+                    ax = -x if neg else x
+                    # the 13-decimal reading of |x|: rounded integers are memoised per path, so this is the very integer the code
+                    # extracted its digits from
+                    return f, x, r, fm.rnint(fm.XF(ax.num, ax.den, ax.lo, ax.hi), 10 ** 13)
                 with fmode():
                     paths, st = explore(run, max_paths=60, feas_timeout_ms=4000, max_decisions=80)
                 sgn = -1 if neg else 1
 
                 def pred(p, sgn=sgn):
-                    (q, deg, mm, ss), x, r = p.value
+                    (q, deg, mm, ss), x, r, R = p.value
                     tn, td = denoted(deg, mm, ss)
-                    return _value_goal(fn, r, tn, td, sgn)
+                    g = _value_goal(fn, r, tn, td, sgn, x)
+                    if g is None or lo >= 512 or fn == 'HPAngle':
+                        return g
+                    # lemma: below 512 the double spacing is < 1e-13, so the 13-decimal reading of the double is the decimal it was
+                    # written as; proved first, then used as a fact for the value claim
+                    v = solve.prove(ob.path_conds(p), R == q, timeout_s=QT[tier])
+                    return (([R == q] if v.status == 'unsat' else []), g)
                 _decide_paths(out, 'O1/O3', '%s%s: accepted, and the result denotes the same angle within 1e-8"' % (tag, ' (negative)' if neg else ''), paths, pred,
                               'O1:%s:%s' % (fn, 'beyond512' if lo >= 512 else 'below512'), _witness_args(fn, 'hp-valid' + ('-neg' if neg else '')), tier)
             if fn in ('hp2dec', 'HPAngle'):
@@ -174,11 +200,14 @@ def _call(A, fn, x):
     return getattr(A, fn)(x)
 
 
-def _value_goal(fn, r, tn, td, sgn):
+def _value_goal(fn, r, tn, td, sgn, x=None):
     """what the result of an HP-taking function must satisfy"""
     A = angles()
-    if fn == 'HPAngle':
-        return None
+    if fn == 'HPAngle':       # the object holds exactly the double it was given
+        h = fm.XF.rat(r.hp_angle)
+        if h.slack() != 0 or x is None:
+            return z3.BoolVal(False)
+        return h.num * x.den == x.num * h.den
     if fn == 'hp2dec':
         return close_to(fm.XF.rat(r), tn, td, sign=sgn)
     if fn == 'hp2dms':
@@ -190,6 +219,18 @@ def _value_goal(fn, r, tn, td, sgn):
 
 def _as_xf(v):
     return fm.XF.rat(v)
+
+
+def _nonneg(x):
+    """the double behind x (within x.err of the exact part) is >= 0"""
+    e = x.err
+    return z3.BoolVal(True) if x.known_nonneg() else x.num * e.denominator - e.numerator * x.den >= 0
+
+
+def _below(x, c):
+    """the double behind x is < c: exact part + err < c, in exact rational arithmetic"""
+    e = x.err
+    return x.num * e.denominator + e.numerator * x.den < c * x.den * e.denominator
 
 
 def _dms_goal(r, tn, td, sgn):
@@ -204,7 +245,7 @@ def _dms_goal(r, tn, td, sgn):
     dd = num * td - tn * den
     bound = eff * den * td
     pos = (r.positive is True) if sgn > 0 else (r.positive is False)
-    return z3.And(z3.BoolVal(bool(pos)), m.num >= 0, m.num < 60, s.num >= 0, s.num < 60 * s.den, d.num >= 0,
+    return z3.And(z3.BoolVal(bool(pos)), m.num >= 0, _nonneg(s), d.num >= 0,
                   dd * bound.denominator <= bound.numerator, dd * bound.denominator >= -bound.numerator)
 
 
@@ -218,7 +259,7 @@ def _ddm_goal(r, tn, td, sgn):
     dd = num * td - tn * den
     bound = eff * den * td
     pos = (r.positive is True) if sgn > 0 else (r.positive is False)
-    return z3.And(z3.BoolVal(bool(pos)), m.num >= 0, m.num < 60 * m.den, d.num >= 0,
+    return z3.And(z3.BoolVal(bool(pos)), _nonneg(m), d.num >= 0,
                   dd * bound.denominator <= bound.numerator, dd * bound.denominator >= -bound.numerator)
 
 
@@ -230,24 +271,28 @@ def dec_input(lo, hi, neg=False):
 
 def g_dec_inputs(fn):
     """O4: dec2hp / dec2dms / dec2ddm / dec2gon / gon2dec on every double of the chunk"""
-    def g(tier, seed):
+    def g(tier, seed, chunk_sel=None):
         A = angles()
         out = []
-        for ci, (lo, hi) in enumerate(chunks(tier)):
+        for ci, (lo, hi) in enumerate(chunks(tier, seed)):
+            if chunk_sel is not None and ci % chunk_sel[1] != chunk_sel[0]:
+                continue
             tag = '%s on every double in [%s, %s)' % (fn, float(lo), float(hi))
             for neg in ((False, True) if ci % 7 == 3 else (False,)):
                 def run():
+                    del fm.PARSED[:]
                     x = dec_input(lo, hi, neg)
-                    return x, getattr(A, fn)(x)
+                    r = getattr(A, fn)(x)
+                    return x, (fm.materialise(r) if isinstance(r, fm.XF) else r), (fm.PARSED[-1] if fm.PARSED else None)
                 with fmode():
                     paths, st = explore(run, max_paths=80, feas_timeout_ms=4000, max_decisions=80)
                 sgn = -1 if neg else 1
 
                 def pred(p, sgn=sgn):
-                    x, r = p.value
+                    x, r, parsed = p.value
                     ax = -x if sgn < 0 else x
                     if fn == 'dec2hp':
-                        return _hp_valid_goal(fm.XF.rat(r), ax, sgn)
+                        return _hp_goal_with_lemma(p, fm.XF.rat(r), ax, sgn, parsed, hi, tier)
                     if fn == 'dec2dms':
                         return _dms_goal(r, ax.num, ax.den, sgn)
                     if fn == 'dec2ddm':
@@ -258,9 +303,13 @@ def g_dec_inputs(fn):
                         return close_to(fm.XF.rat(r), (x._scale(F(9, 10))).num, (x._scale(F(9, 10))).den)
                     raise ValueError(fn)
                 _decide_paths(out, 'O4', '%s%s: result is valid and denotes the same angle within 1e-8"' % (tag, ' (negative)' if neg else ''), paths, pred,
-                              'O4:%s' % fn, _witness_args(fn, 'dec' + ('-neg' if neg else ''), fm.log2floor(lo)), tier)
+                              'O4:%s:%s' % (fn, 'beyond512' if lo >= 512 else 'below512'), _witness_args(fn, 'dec' + ('-neg' if neg else ''), fm.log2floor(lo)), tier)
         return out
     return g
+
+
+LAST_R13 = [None]
+LAST_FIELDS = [None]
 
 
 def _hp_valid_goal(y, ax, sgn):
@@ -272,8 +321,10 @@ def _hp_valid_goal(y, ax, sgn):
     if ay.err != 0:
         return [], z3.BoolVal(False)
     R = fm.fresh_int('R13')
+    LAST_R13[0] = str(R)
     d = R * ay.den - ay.num * 10 ** 13
     deg, mm, ss = fm.fresh_int('g_deg'), fm.fresh_int('g_mm'), fm.fresh_int('g_ss')
+    LAST_FIELDS[0] = (str(deg), str(mm), str(ss))
     defs = [2 * d <= ay.den, 2 * d >= -ay.den, z3.Implies(z3.Or(2 * d == ay.den, 2 * d == -ay.den), R % 2 == 0),
             R == deg * 10 ** 13 + mm * 10 ** 11 + ss, mm >= 0, mm < 100, ss >= 0, ss < 10 ** 11]
     tn, td = denoted(deg, mm, ss)
@@ -281,6 +332,46 @@ def _hp_valid_goal(y, ax, sgn):
     bound = TOL_DEG * ax.den * td
     goal = z3.And(ay.num >= 0, deg >= 0, mm < 60, ss < 60 * 10 ** 9, dd * bound.denominator <= bound.numerator, dd * bound.denominator >= -bound.numerator)
     return defs, goal
+
+
+def _hp_goal_with_lemma(p, y, ax, sgn, parsed, hi, tier):
+    """dec2hp builds its result as float(decimal text). Below 512 the double spacing is under 1e-13, so the 13-decimal reading of
+    the double is the decimal text itself: proved first as a lemma (solver query over the same path), then used as a fact."""
+    defs, goal = _hp_valid_goal(y, ax, sgn)
+    if parsed is None or hi > 512 or 10 ** 13 % parsed[1] != 0:
+        return defs, goal
+    R = z3.Int(LAST_R13[0])
+    lemma = R * parsed[1] == parsed[0] * 10 ** 13
+    v = solve.prove(ob.path_conds(p) + defs, lemma, timeout_s=QT[tier])
+    if v.status != 'unsat':
+        return defs, goal
+    defs = defs + [lemma]
+    # second lemma: the digit groups of the text are the fields of the reading (unique decomposition)
+    fs, pos, mm_t, ss_t = parsed[3], 0, z3.IntVal(0), z3.IntVal(0)
+    for term, w in fs:
+        if pos < 2 and pos + w <= 2:
+            mm_t = mm_t * 10 ** w + term
+        elif pos >= 2:
+            ss_t = ss_t * 10 ** w + term
+        else:
+            return defs, goal
+        pos += w
+    if pos < 2 or pos > 13:
+        return defs, goal
+    ss_t = ss_t * 10 ** (13 - pos)
+    deg, mm, ss = (z3.Int(n) for n in LAST_FIELDS[0])
+    lemma2 = z3.And(deg == parsed[2], mm == mm_t, ss == ss_t)
+    v = solve.prove(ob.path_conds(p) + defs, lemma2, timeout_s=QT[tier])
+    if v.status == 'unsat':
+        defs = defs + [lemma2]
+    return defs, goal
+
+
+class Dec2hpCall:
+    """summary of a call of dec2hp: remembers the argument; the result is used only as a return value"""
+
+    def __init__(self, arg):
+        self.arg = arg
 
 
 def g_objects(tier, seed):
@@ -291,8 +382,8 @@ def g_objects(tier, seed):
     def fields():
         d = z3.Int('o_deg')
         m = z3.Int('o_min')
-        fm.assume(d >= 0, d < 720, m >= 0, m < 60)
-        return fm.XI(d, 0, 719), fm.XI(m, 0, 59)
+        fm.assume(d >= 0, d < 511, m >= 0, m < 60)
+        return fm.XI(d, 0, 510), fm.XI(m, 0, 59)
     for lo, hi in ((F(1, 4), F(1, 2)), (1, 2), (4, 8), (32, 60)):
         for cls, meth in (('DMSAngle', 'dec'), ('DMSAngle', 'hp'), ('DMSAngle', 'ddm'), ('DDMAngle', 'dec'), ('DDMAngle', 'hp'), ('DDMAngle', 'dms')):
             tag = '%s.%s(), seconds/minutes in [%s, %s)' % (cls, meth, float(lo), float(hi))
@@ -300,21 +391,33 @@ def g_objects(tier, seed):
             def run():
                 d, m = fields()
                 v = dec_input(lo, min(hi, 60))
+                fm.assume(v.num < 60 * v.den)       # seconds / decimal minutes are below 60
                 o = A.DMSAngle(d, m, v, positive=True) if cls == 'DMSAngle' else A.DDMAngle(d, v, positive=True)
-                return (d, m, v), getattr(o, meth)()
+                del fm.PARSED[:]
+                if meth == 'hp':
+                    # callee summary: dec2hp's contract (valid HP denoting its argument within TOL_DEG, for every double below 512)
+                    # is what the O4 dec2hp obligations discharge; here the wiring and the argument are checked
+                    with swap_global(A, 'dec2hp', Dec2hpCall):
+                        r = getattr(o, meth)()
+                else:
+                    r = getattr(o, meth)()
+                return (d, m, v), (fm.materialise(r) if isinstance(r, fm.XF) else r), (fm.PARSED[-1] if fm.PARSED else None)
             with fmode():
                 paths, st = explore(run, max_paths=60, feas_timeout_ms=4000, max_decisions=80)
 
             def pred(p):
-                (d, m, v), r = p.value
+                (d, m, v), r, parsed = p.value
                 if cls == 'DMSAngle':
                     tn, td = (d.z * 3600 + m.z * 60) * v.den + v.num, 3600 * v.den
                 else:
                     tn, td = d.z * 60 * v.den + v.num, 60 * v.den
                 if meth == 'dec':
                     return close_to(fm.XF.rat(r), tn, td)
+                if meth == 'hp' and isinstance(r, Dec2hpCall):
+                    a = fm.XF.rat(r.arg).settled()
+                    return z3.And(_nonneg(a), close_to(a, tn, td))
                 if meth == 'hp':
-                    return _hp_valid_goal(fm.XF.rat(r), fm.XF(tn, td, F(0), F(721)), 1)
+                    return _hp_goal_with_lemma(p, fm.XF.rat(r), fm.XF(tn, td, F(0), F(512)), 1, parsed, 511, tier)
                 if meth == 'ddm':
                     return _ddm_goal(r, tn, td, 1)
                 return _dms_goal(r, tn, td, 1)
@@ -324,11 +427,145 @@ def g_objects(tier, seed):
     return out
 
 
+# --- wiring of the wrappers (R-model with the leaf conversions as summaries) --------------------------------------------------
+WRAPPERS = {
+    'dec2hpa': ('dec', 'hpa'), 'dec2gona': ('dec', 'gona'), 'hp2deca': ('hp', 'deca'), 'hp2rad': ('hp', 'rad'), 'hp2gon': ('hp', 'gon'),
+    'hp2gona': ('hp', 'gona'), 'hp2dms': ('hp', 'dms'), 'hp2ddm': ('hp', 'ddm'), 'gon2deca': ('gon', 'deca'), 'gon2hp': ('gon', 'hp'),
+    'gon2hpa': ('gon', 'hpa'), 'gon2rad': ('gon', 'rad'), 'gon2dms': ('gon', 'dms'), 'gon2ddm': ('gon', 'ddm'),
+}
+METHODS = ('rad', 'dec', 'deca', 'hp', 'hpa', 'gon', 'gona', 'dms', 'ddm')
+OBJ_CLASSES = ('DECAngle', 'HPAngle', 'GONAngle', 'DMSAngle', 'DDMAngle')
+
+
+def g_wiring(tier, seed):
+    """every wrapper function and every object method returns exactly the composition 'source notation -> decimal degrees -> target
+    notation' of the leaf conversions (dec2hp, hp2dec summarised as uninterpreted functions of their argument; dec2dms, dec2ddm, the
+    gradian factor and radians() executed); the leaves themselves are the F-model obligations above"""
+    from vsym.core import fresh_real, SymReal
+    from vsym import mathx
+    from checks.c15 import patched_angles, same, ref_ctx
+    from checks.common import uf_call
+    instr.install()
+    import geodepy.angles as ga
+    out = []
+
+    def src_value(kind, positive):
+        """(python value handed to the code, its decimal-degree value as a reference term)"""
+        if kind in ('dec', 'DECAngle'):
+            v = fresh_real('v', -720, 720)
+            return (ga.DECAngle(v) if kind == 'DECAngle' else v), v
+        if kind in ('hp', 'HPAngle'):
+            v = fresh_real('v', -720, 720)
+            return (ga.HPAngle(v) if kind == 'HPAngle' else v), uf_call('hp2dec', 1, v)[0]
+        if kind in ('gon', 'GONAngle'):
+            v = fresh_real('v', -800, 800)
+            return (ga.GONAngle(v) if kind == 'GONAngle' else v), v * Fraction(9, 10)
+        d = fresh_real('d', 0, 719, is_int=True)
+        sg = 1 if positive else -1
+        if kind == 'DMSAngle':
+            m, s = fresh_real('m', 0, 59, is_int=True), fresh_real('s', 0, 60)
+            core.CTX.assume(s < 60)
+            return ga.DMSAngle(d, m, s, positive=positive), sg * (d + m / 60 + s / 3600)
+        m = fresh_real('mm', 0, 60)
+        core.CTX.assume(m < 60)
+        return ga.DDMAngle(d, m, positive=positive), sg * (d + m / 60)
+
+    def target(kind, dec):
+        if kind == 'dec':
+            return dec
+        if kind == 'deca':
+            return ga.DECAngle(dec)
+        if kind in ('hp', 'hpa'):
+            h = uf_call('dec2hp', 1, dec)[0]
+            return h if kind == 'hp' else ga.HPAngle(h)
+        if kind in ('gon', 'gona'):
+            g = dec * Fraction(10, 9)
+            return g if kind == 'gon' else ga.GONAngle(g)
+        if kind == 'rad':
+            return mathx.radians(dec)
+        return ga.dec2dms(dec) if kind == 'dms' else ga.dec2ddm(dec)
+
+    cases = [(fn, sk, tk, None, True) for fn, (sk, tk) in sorted(WRAPPERS.items())]
+    for cls in OBJ_CLASSES:
+        for meth in METHODS:
+            if hasattr(getattr(ga, cls), meth):
+                for positive in ((True, False) if cls in ('DMSAngle', 'DDMAngle') else (True,)):
+                    cases.append(('%s.%s' % (cls, meth), cls, meth, meth, positive))
+    for name, sk, tk, meth, positive in cases:
+        def run():
+            val, dec = src_value(sk, positive)
+            r = getattr(val, meth)() if meth else getattr(ga, name)(val)
+            return (dec, val), r
+        with patched_angles(ga):
+            paths, st = explore(run, max_paths=24)
+        label = '%s%s' % (name, '' if positive else ' (negative object)')
+        mk = lambda env, name=name, positive=positive: {'what': name, 'env': env, 'positive': positive}
+        nret = 0
+        for p in paths:
+            if p.kind == 'cut':
+                out.append(ob.res('O5', label, 'inconclusive', [], 'path cut: %s' % p.value))
+                continue
+            conds = ob.path_conds(p)
+            if p.kind != 'return':
+                out.append(ob.decide_goal('O5', '%s: no exception (%s: %s)' % (label, type(p.value).__name__, p.value), conds, z3.BoolVal(False), pid=PID,
+                                          oracle='oracles.c08:wiring', args_from_model=mk, key='O5:%s' % name, timeout_s=10))
+                continue
+            nret += 1
+            (dec, val), r = p.value
+            if (sk, tk) in (('HPAngle', 'hp'), ('HPAngle', 'hpa')):
+                # same notation: the value itself, not a round trip through decimal degrees
+                g = same(r, val.hp_angle if tk == 'hp' else val)
+                out.append(ob.decide_goal('O5', '%s = the object\'s own HP value' % label, conds, g, pid=PID, oracle='oracles.c08:wiring',
+                                          args_from_model=mk, key='O5:%s' % name, timeout_s=10))
+                continue
+            if (sk, tk) in (('DMSAngle', 'ddm'), ('DDMAngle', 'dms')):
+                # fields are recombined directly: claim the value and the sign flag (exact in the R-model)
+                val_r = core.toz(r.degree) + core.toz(r.minute) / 60 + (core.toz(r.second) / 3600 if tk == 'dms' else 0)
+                g = z3.And(z3.BoolVal(type(r).__name__ == {'ddm': 'DDMAngle', 'dms': 'DMSAngle'}[tk]),
+                           z3.Or(z3.BoolVal(r.positive is positive), core.toz(dec) == 0),      # the flag of a zero angle carries no sign
+                           core.toz(r.minute) >= 0, core.toz(r.degree) >= 0, (core.toz(r.second) >= 0 if tk == 'dms' else z3.BoolVal(True)),
+                           val_r == core.toz(dec) * (1 if positive else -1))
+                out.append(ob.decide_goal('O5', '%s denotes the same angle with the same sign flag' % label, conds, g, pid=PID,
+                                          oracle='oracles.c08:wiring', args_from_model=mk, key='O5:%s' % name, timeout_s=10))
+                continue
+            rc = ref_ctx(p)
+            rc.__enter__()
+            try:
+                with patched_angles(ga):
+                    exp = target(tk, dec)
+                extra = list(core.CTX.pc) + list(core.CTX.facts)
+            except (core.PathAbort, core.PathCut) as e:
+                out.append(ob.res('O5', label, 'inconclusive', [], 'reference not computable: %r' % (e,)))
+                continue
+            finally:
+                core.CTX = None
+            out.append(ob.decide_goal('O5', '%s = the leaf conversions composed (source -> decimal degrees -> %s)' % (label, tk), conds + extra,
+                                      same(r, exp), pid=PID, oracle='oracles.c08:wiring', args_from_model=mk, key='O5:%s' % name, timeout_s=10))
+        if nret == 0:
+            out.append(ob.res('O5', label, 'inconclusive', [], 'no returning path'))
+    return out
+
+
+def _slice(g, k, n):
+    def f(tier, seed):
+        return g(tier, seed, (k, n))
+    return f
+
+
 def groups(tier):
     gs = []
-    for fn in ('HPAngle', 'hp2dec', 'hp2dms', 'hp2ddm'):
-        gs.append(('hp_' + fn, g_hp_inputs(fn)))
-    for fn in ('dec2hp', 'dec2dms', 'dec2ddm', 'dec2gon', 'gon2dec'):
-        gs.append(('dec_' + fn, g_dec_inputs(fn)))
+    n = 6 if tier == 'quick' else 12
+    for k in range(n):
+        gs.append(('hp_hp2dec_%d' % k, _slice(g_hp_inputs('hp2dec'), k, n)))
+    # the HPAngle constructor on an eighth (quick) / a quarter (thorough) of the chunks: it delegates to hp2dec, whose chunks are all above
+    for k in range(1 if tier == 'quick' else 3):
+        gs.append(('hp_HPAngle_%d' % k, _slice(g_hp_inputs('HPAngle'), k, 8 if tier == 'quick' else 12)))
+    for fn in ('dec2hp', 'dec2dms', 'dec2ddm'):
+        for k in range(n):
+            gs.append(('dec_%s_%d' % (fn, k), _slice(g_dec_inputs(fn), k, n)))
+    for fn in ('dec2gon', 'gon2dec'):
+        for k in range(2):
+            gs.append(('dec_%s_%d' % (fn, k), _slice(g_dec_inputs(fn), k, 2)))
     gs.append(('objects', g_objects))
+    gs.append(('wiring', g_wiring))
     return gs
